@@ -651,6 +651,8 @@ theorem optRel_none_of {α β : Type} {R : α → β → Prop} {c : Option α} (
   subst h
   trivial
 
+set_option linter.unusedSimpArgs false
+
 /-! ## all members of one node (generated chain) -/
 
 /-- the members of a node without `any`-typed / `$vocabulary` / `dependentRequired` / `dependencies` keywords, in emission
@@ -953,6 +955,162 @@ theorem node_chain {st : Store} {mrec : MRec} {urec : URec} {G : Nat} {Q : Store
       (.cons (.one (lift_one hQ X10 r_unevaluatedItems))
       (.cons (.one (lift_one hQ X14 r_unevaluatedProperties))
       (.nil)))))))))))))))))))))))
+
+/-! ## inversion of a successful marshalNode (generated) -/
+
+theorem marshalNode_inv {st : Store} {mrec : MRec} {n : Node} {j : Json} (hok : nodeOK n = true)
+    (h : marshalNode st mrec n = .ok j) :
+    ∃ props items anyOf oneOf defs definitions prefixItems additionalItems contains unevaluatedItems patternProperties additionalProperties propertyNames unevaluatedProperties allOf not_ if_ then_ else_ dependentSchemas contentSchema : List (String × Json),
+      mPropsField st mrec n.properties (n.propertyOrder.getD []) = .ok props ∧
+      mItemsField st mrec n.items n.itemsArray = .ok items ∧
+      mManyNN st mrec "anyOf" n.anyOf = .ok anyOf ∧
+      mManyNN st mrec "oneOf" n.oneOf = .ok oneOf ∧
+      mKeyed st mrec "$defs" n.defs = .ok defs ∧
+      mKeyed st mrec "definitions" n.definitions = .ok definitions ∧
+      mMany st mrec "prefixItems" n.prefixItems = .ok prefixItems ∧
+      mOne st mrec "additionalItems" n.additionalItems = .ok additionalItems ∧
+      mOne st mrec "contains" n.contains = .ok contains ∧
+      mOne st mrec "unevaluatedItems" n.unevaluatedItems = .ok unevaluatedItems ∧
+      mKeyed st mrec "patternProperties" n.patternProperties = .ok patternProperties ∧
+      mOne st mrec "additionalProperties" n.additionalProperties = .ok additionalProperties ∧
+      mOne st mrec "propertyNames" n.propertyNames = .ok propertyNames ∧
+      mOne st mrec "unevaluatedProperties" n.unevaluatedProperties = .ok unevaluatedProperties ∧
+      mMany st mrec "allOf" n.allOf = .ok allOf ∧
+      mOne st mrec "not" n.not = .ok not_ ∧
+      mOne st mrec "if" n.if_ = .ok if_ ∧
+      mOne st mrec "then" n.then_ = .ok then_ ∧
+      mOne st mrec "else" n.else_ = .ok else_ ∧
+      mKeyed st mrec "dependentSchemas" n.dependentSchemas = .ok dependentSchemas ∧
+      mOne st mrec "contentSchema" n.contentSchema = .ok contentSchema ∧
+      mFinish (treeMembers n props items anyOf oneOf defs definitions prefixItems additionalItems contains unevaluatedItems patternProperties additionalProperties propertyNames unevaluatedProperties allOf not_ if_ then_ else_ dependentSchemas contentSchema (mExtra n)) = .ok j := by
+  obtain ⟨-, -, -, -, -, -, -, -, -, -, -, -, -, hV, hD, hEx, hEn, hC, hDR, hDS, hDSt⟩ := nodeOK_unpack hok
+  unfold marshalNode marshalParts at h
+  obtain ⟨props, e_props, h0⟩ := Res.bind_eq_ok h
+  obtain ⟨deps, e_deps, h1⟩ := Res.bind_eq_ok h0
+  obtain ⟨items, e_items, h2⟩ := Res.bind_eq_ok h1
+  obtain ⟨defs, e_defs, h3⟩ := Res.bind_eq_ok h2
+  obtain ⟨definitions, e_definitions, h4⟩ := Res.bind_eq_ok h3
+  obtain ⟨prefixItems, e_prefixItems, h5⟩ := Res.bind_eq_ok h4
+  obtain ⟨additionalItems, e_additionalItems, h6⟩ := Res.bind_eq_ok h5
+  obtain ⟨contains, e_contains, h7⟩ := Res.bind_eq_ok h6
+  obtain ⟨unevaluatedItems, e_unevaluatedItems, h8⟩ := Res.bind_eq_ok h7
+  obtain ⟨patternProperties, e_patternProperties, h9⟩ := Res.bind_eq_ok h8
+  obtain ⟨additionalProperties, e_additionalProperties, h10⟩ := Res.bind_eq_ok h9
+  obtain ⟨propertyNames, e_propertyNames, h11⟩ := Res.bind_eq_ok h10
+  obtain ⟨unevaluatedProperties, e_unevaluatedProperties, h12⟩ := Res.bind_eq_ok h11
+  obtain ⟨allOf, e_allOf, h13⟩ := Res.bind_eq_ok h12
+  obtain ⟨anyOf, e_anyOf, h14⟩ := Res.bind_eq_ok h13
+  obtain ⟨oneOf, e_oneOf, h15⟩ := Res.bind_eq_ok h14
+  obtain ⟨not_, e_not_, h16⟩ := Res.bind_eq_ok h15
+  obtain ⟨if_, e_if_, h17⟩ := Res.bind_eq_ok h16
+  obtain ⟨then_, e_then_, h18⟩ := Res.bind_eq_ok h17
+  obtain ⟨else_, e_else_, h19⟩ := Res.bind_eq_ok h18
+  obtain ⟨dependentSchemas, e_dependentSchemas, h20⟩ := Res.bind_eq_ok h19
+  obtain ⟨contentSchema, e_contentSchema, h21⟩ := Res.bind_eq_ok h20
+  rw [hDS, hDSt, mDeps_none] at e_deps
+  cases e_deps
+  rw [mMembers_tree n hV hD hEx hEn hC hDR] at h21
+  exact ⟨props, items, anyOf, oneOf, defs, definitions, prefixItems, additionalItems, contains, unevaluatedItems, patternProperties, additionalProperties, propertyNames, unevaluatedProperties, allOf, not_, if_, then_, else_, dependentSchemas, contentSchema, e_props, e_items, e_anyOf, e_oneOf, e_defs, e_definitions, e_prefixItems, e_additionalItems, e_contains, e_unevaluatedItems, e_patternProperties, e_additionalProperties, e_propertyNames, e_unevaluatedProperties, e_allOf, e_not_, e_if_, e_then_, e_else_, e_dependentSchemas, e_contentSchema, h21⟩
+
+
+/-! ## the induction over the tree -/
+
+theorem size_lt_of_mem_obj {es : List (String × Json)} {e : String × Json} (he : e ∈ es) :
+    Json.size e.2 < Json.size (.obj es) := by
+  have h1 := C10.size_le_sizeObj (k := e.1) (v := e.2) he
+  simp only [Json.size]
+  omega
+
+/-- what the round trip says of the rebuilt schema `x'` in store `s`: its tree equals the tree of `x` up to the normal
+    forms, and it was allocated after all of its descendants (so its depth is at most `x' + 1`) -/
+def RTQ (st : Store) (f : Nat) (s : Store) (x x' : NodeId) : Prop := TreeEq st s f x x' ∧ Full s (x' + 1) x'
+
+theorem RTQ.mono (st : Store) (f : Nat) : ∀ s s' x y, Ext s s' → RTQ st f s x y → RTQ st f s' x y :=
+  fun _ _ _ _ he h => ⟨TreeEq.mono_right he _ _ _ h.1, Full.ext he h.2⟩
+
+theorem rt_finish {st : Store} {f : Nat} {id : NodeId} {n : Node} (hn : st.get? id = some n) {st2 s : Store} {N : Node}
+    (hext : Ext st2 s) (hrel : NodeRel (RTQ st f s) (normNode n) N) :
+    Ext st2 (s.push N) ∧ RTQ st (f + 1) (s.push N) id s.size := by
+  refine ⟨hext.trans (Ext.push s N), ⟨n, N, hn, get?_push_size _ _, ?_⟩, ⟨N, get?_push_size _ _, ?_⟩⟩
+  · exact NodeRel.imp (fun a b h => TreeEq.mono_right (Ext.push _ _) _ _ _ h.1) hrel
+  · intro x hx
+    obtain ⟨fs', hl, rfl⟩ := hrel
+    obtain ⟨a, hq⟩ := children_of_rel hl hx
+    have hlt : x < s.size := hq.2.lt_size
+    exact Full.ext (Ext.push _ _) (hq.2.mono_le hlt)
+
+theorem setFields_not_true (g : Nat) (st2 : Store) :
+    setFields (unmarshalFuel (g + 1)) [("not", Json.bool true)] emptyNode st2 =
+      .ok ({ emptyNode with not := some st2.size }, st2.push emptyNode) := by
+  rw [setFields_cons_canon _ _ _ _ _ (show canonKey "not" = "not" by decide)]
+  rfl
+
+/-- the round trip of the tree below `id`, for every fuel of MarshalJSON that suffices and every fuel of
+    UnmarshalJSON that covers the size of the document -/
+theorem rt_main (st : Store) : ∀ (f d : Nat) (id : NodeId) (j : Json),
+    treeAll nodeOK st d id = true → marshalFuel st f id = .ok j →
+    IsSchemaJson j ∧ ∀ (g : Nat) (st2 : Store), Json.size j ≤ g →
+      ∃ id' st2', unmarshalFuel g j st2 = .ok (id', st2') ∧ Ext st2 st2' ∧ RTQ st f st2' id id' := by
+  intro f
+  induction f with
+  | zero => intro d id j _ h; cases h
+  | succ f ih =>
+    intro d id j hd hj
+    cases d with
+    | zero => cases hd
+    | succ d =>
+      obtain ⟨n, hn, hok, hcd⟩ := treeAll_succ hd
+      change marshalStep st (marshalFuel st f) id = .ok j at hj
+      rw [marshalStep_eq, hn] at hj
+      dsimp only at hj
+      have hchk : marshalChecksOk n = true := by
+        simp only [nodeOK, Bool.and_eq_true] at hok
+        exact hok.1.1.1.1.1.1.1.1.1.1.1.1.1.1.1.1.1.1
+      have hany : ((n.extra.getD []).any fun e => structNames.contains e.1) = false := by
+        simp only [nodeOK, Bool.and_eq_true, Bool.not_eq_true'] at hok
+        exact hok.1.1.1.1.1.1.1.1.1.1.1.1.1.1.1.1.1.2
+      rw [if_neg (by rw [hchk]; decide), if_neg (by rw [hany]; decide)] at hj
+      obtain ⟨props, items, anyOf, oneOf, defs, definitions, prefixItems, additionalItems, contains, unevaluatedItems, patternProperties, additionalProperties, propertyNames, unevaluatedProperties, allOf, not_, if_, then_, else_, dependentSchemas, contentSchema, e_props, e_items, e_anyOf, e_oneOf, e_defs, e_definitions, e_prefixItems, e_additionalItems, e_contains, e_unevaluatedItems, e_patternProperties, e_additionalProperties, e_propertyNames, e_unevaluatedProperties, e_allOf, e_not_, e_if_, e_then_, e_else_, e_dependentSchemas, e_contentSchema, hfin⟩ := marshalNode_inv hok hj
+      refine ⟨mFinish_isSchemaJson hfin, fun g st2 hg => ?_⟩
+      have hch : ∀ (g' : Nat) x, x ∈ n.children →
+          ChildRT st (marshalFuel st f) (unmarshalFuel g') g' (RTQ st f) x := by
+        intro g' x hx
+        have hxd := hcd x hx
+        refine ⟨treeAll_get hxd, fun jx hjx => ?_⟩
+        obtain ⟨h1, h2⟩ := ih d x jx hxd hjx
+        exact ⟨h1, fun hs st2 => h2 g' st2 hs⟩
+      have chain := fun (g' : Nat) (st2 : Store) hG =>
+        node_chain (G := g') (RTQ.mono st f) n hok (hch g') e_props e_items e_anyOf e_oneOf e_defs e_definitions e_prefixItems e_additionalItems e_contains e_unevaluatedItems e_patternProperties e_additionalProperties e_propertyNames e_unevaluatedProperties e_allOf e_not_ e_if_ e_then_ e_else_ e_dependentSchemas e_contentSchema hG st2
+      obtain ⟨g', rfl⟩ : ∃ g', g = g' + 1 := ⟨g - 1, by have := C10.size_pos j; omega⟩
+      generalize treeMembers n props items anyOf oneOf defs definitions prefixItems additionalItems contains unevaluatedItems patternProperties additionalProperties propertyNames unevaluatedProperties allOf not_ if_ then_ else_ dependentSchemas contentSchema (mExtra n) = M at hfin chain
+      unfold mFinish at hfin
+      split at hfin
+      · cases hfin
+        obtain ⟨N, s, hset, hext, hrel⟩ := chain g' st2 (fun e he => by cases he)
+        simp only [setFields] at hset
+        cases hset
+        obtain ⟨h1, h2⟩ := rt_finish hn hext hrel
+        exact ⟨_, _, rfl, h1, h2⟩
+      · cases hfin
+        obtain ⟨N, s, hset, hext, hrel⟩ := chain (g' + 1) st2 (fun e he => by
+          simp only [List.mem_singleton] at he
+          subst he
+          simp only [Json.size]
+          omega)
+        rw [setFields_not_true] at hset
+        cases hset
+        obtain ⟨h1, h2⟩ := rt_finish hn hext hrel
+        exact ⟨_, _, rfl, h1, h2⟩
+      · cases hfin
+        obtain ⟨N, s, hset, hext, hrel⟩ := chain g' st2 (fun e he => by
+          have := size_lt_of_mem_obj he
+          omega)
+        obtain ⟨h1, h2⟩ := rt_finish hn hext hrel
+        refine ⟨_, _, ?_, h1, h2⟩
+        show unmarshalStep (unmarshalFuel g') (.obj _) st2 = _
+        simp only [unmarshalStep, hset, Res.bind_ok]
+        rfl
+
 
 end Go
 end JSV
